@@ -216,6 +216,11 @@ func (e *kvElection) Start(ctx context.Context) error {
 	if e.stopping > 0 {
 		return ErrAlreadyStarted
 	}
+	// The previous run ended with its context and its leadership has not been given
+	// up yet (the step-down is under way): a new run must not inherit it.
+	if e.isLeader.Load() {
+		return ErrAlreadyStarted
+	}
 
 	e.ctx, e.cancel = context.WithCancel(ctx)
 	e.stopped = false
@@ -246,6 +251,22 @@ func (e *kvElection) Start(ctx context.Context) error {
 			zap.Duration("heartbeat_interval", e.cfg.HeartbeatInterval),
 		)...,
 	)
+
+	// "If the context is cancelled, the election will stop gracefully": Stop cancels
+	// e.ctx itself; when it is the caller's context that ends the run, a leader must
+	// not go on claiming leadership with nobody refreshing its record.
+	runCtx := e.ctx
+	e.wg.Add(1)
+	go func() {
+		defer e.wg.Done()
+		<-runCtx.Done()
+		e.mu.RLock()
+		byStop := e.stopped || e.ctx != runCtx
+		e.mu.RUnlock()
+		if !byStop {
+			e.stepDown("context_cancelled")
+		}
+	}()
 
 	e.wg.Add(1)
 	go func() {
@@ -676,6 +697,13 @@ func (e *kvElection) becomeFollower() bool {
 		if wasLeader {
 			e.recordLeaderDuration()
 			e.leaderStartTime.Store(time.Time{})
+			if !e.stopped {
+				// The run ended with the caller's context, not by a stop call: the state
+				// must not go on saying LEADER.
+				e.state.Store(StateFollower)
+				e.lastTransition.Store(time.Now())
+				e.recordTransition(fromState, StateFollower)
+			}
 			e.updateIsLeaderMetric()
 		}
 		return wasLeader
